@@ -106,3 +106,21 @@ def closure(outer, name, env, globals_override=None):
     g = dict(outer.__globals__)
     g.update(globals_override or {})
     return types.FunctionType(code, g, name, None, tuple(cells))
+
+
+def reload_module(mod, overrides=None, transformer=None, strip_logging=True):
+    """execute the module's CURRENT source again in a fresh namespace (module-level state starts fresh, functions call each other
+    inside that namespace) with the stated rewrites; returns the namespace dict"""
+    src = inspect.getsource(mod)
+    _ENCODED[f"{mod.__name__} (whole module)"] = hashlib.sha256(src.encode()).hexdigest()[:16]
+    tree = ast.parse(src)
+    if strip_logging:
+        tree = _Strip().visit(tree)
+    if transformer is not None:
+        tree = transformer.visit(tree)
+    tree = ast.fix_missing_locations(tree)
+    g = {"__name__": mod.__name__, "__file__": getattr(mod, "__file__", "<module>"), "__package__": mod.__package__, "__builtins__": __builtins__}
+    g.update(overrides or {})
+    exec(compile(tree, getattr(mod, "__file__", "<module>"), "exec"), g)
+    g.update(overrides or {})
+    return g
